@@ -5,7 +5,7 @@
    as VirtualISO.read sees it, [data path] being the bytes of the source file at [path];
    [flat_at] is the one byte function of an image (Spec/IsoReadSpec). *)
 From Verif Require Import Lib.Bytes Model.Path Model.Fs Gen.Consts Model.IsoRead Model.IsoBuild Spec.IsoReadSpec
-  Proofs.IsoReadProofs Proofs.IsoBuildProofs Model.IsoDecode Proofs.IsoDecodeProofs.
+  Proofs.IsoReadProofs Proofs.IsoBuildProofs Model.IsoDecode Proofs.IsoDecodeProofs Proofs.IsoLinksProofs Proofs.IsoChildProofs.
 
 (* the files tile the space between the metadata area and the pad area, in scan order, each padded to a
    whole sector: exactly the precondition under which C09 proves every read to be a slice of flat_at *)
@@ -66,6 +66,17 @@ Theorem C07_built_directories_decode : forall root v ps3 gc now rnd bi, build_im
                       /\ exists r, map rr_id (map to_rrec es) = [0] :: [1] :: r) (f_iso ++ f_jol).
 Proof. exact built_directories_decode. Qed.
 
+(* a walk from the root reaches every directory: in both hierarchies every directory other than the root has, in the
+   extent of the directory the scan found it in (which is listed earlier), a record with its mapped name, the
+   directory flag, and exactly the location and length its own "." carries (C08_links says those are where the
+   directory's extent really is) *)
+Theorem C07_every_directory_reachable : forall root v ps3 gc now rnd bi, build_image root v ps3 gc now rnd = Ok bi ->
+  exists ds f_iso f_jol pre,
+    bi_fsbuf bi = pre ++ dirs_bytes f_iso ++ dirs_bytes f_jol /\
+    length f_iso = length ds /\ length f_jol = length ds /\
+    hier_reach ds false f_iso /\ hier_reach ds true f_jol.
+Proof. exact every_directory_reachable. Qed.
+
 Print Assumptions C07_layout.
 Print Assumptions C07_file_bytes.
 Print Assumptions C07_file_records.
@@ -73,6 +84,7 @@ Print Assumptions C07_served_bytes.
 Print Assumptions C07_names.
 Print Assumptions C07_directory_decodes.
 Print Assumptions C07_built_directories_decode.
+Print Assumptions C07_every_directory_reachable.
 
 (* non-vacuity: a tree with an empty file, a 5-byte file, a sub-directory holding a 3000-byte file and a
    file of 4 GiB + 10 bytes (two extents) builds; sizes and locations as the layout rules give them *)
